@@ -591,11 +591,11 @@ func runC16(c *Ctx) {
 		}
 		if f, rest := lastField(accessPath(st.Addr)); f == wIdx && rest == "" {
 			isTest := func(k int) bool {
-				ifi, ok := gw.Ins[k].(*ssa.If)
+				_, ok := gw.Ins[k].(*ssa.If)
 				if !ok {
 					return false
 				}
-				f, ok := condFact(ifi.Cond, true)
+				f, ok := condFact(gw.Cond(k), true)
 				return ok && cmpMatch(f, token.EQL, func(v ssa.Value) bool { return isLoadOfField(v, rIdx) }, func(v ssa.Value) bool { return isLoadOfField(v, wIdx) })
 			}
 			hdr, _ := loopOf(st.Block())
